@@ -271,7 +271,72 @@ def exec_module(text):
     return ns, None
 
 
+@st.composite
+def subclass_cases(draw):
+    """Model classes written in the DSL: a subclass re-declaring `default` (and `description`) over its parent's -
+    often with a value that a sloppy comparison takes for the parent's (true/1, 0/false, nested)."""
+    base_default = draw(st.one_of(defaults, st.sampled_from([{"retries": 1, "tags": [0]}, 1, 0, [1], {"a": 0}])))
+    alike = jv.lookalike(base_default)
+    child_default = draw(st.sampled_from(alike)) if alike and draw(st.integers(0, 2)) > 0 else draw(defaults)
+    return {"where": "dsl-subclass", "base_default": base_default, "child_default": child_default,
+            "base_description": draw(st.one_of(st.none(), descriptions)),
+            "child_description": draw(st.one_of(st.none(), descriptions)),
+            "mixin": draw(st.sampled_from([None, None, "first", "last"]))}
+
+
+def subclass_predicate(case, stats):
+    from vlib import recipes as R
+    from statham.serializers import serialize_json, serialize_python
+
+    base = {"id": 1, "kind": "Object", "name": "Base", "kw": {"default": case["base_default"]}, "props": [
+        {"name": "retries", "source": None, "required": False, "element": {"id": 2, "kind": "Element", "kw": {}}}]}
+    child = {"id": 3, "kind": "Object", "name": "Child", "kw": {"default": case["child_default"]}, "base": base,
+             "props": [{"name": "tags", "source": None, "required": False, "element": {"id": 4, "kind": "Element", "kw": {}}}]}
+    for node, key in ((base, "base_description"), (child, "child_description")):
+        if case.get(key) is not None:
+            node["kw"]["description"] = case[key]
+    if case.get("mixin"):
+        child["mixin"] = case["mixin"]
+    cls = R.build(child)
+    want = case["child_default"]
+    want_desc = case["child_description"] if case.get("child_description") is not None else case.get("base_description")
+    fails = []
+    stats.case(canon(case), True, ["where:dsl-subclass"] + (["lookalike-of-parent-default"]
+               if any(json_identical(want, x) for x in jv.lookalike(case["base_default"])) else []), sample=case)
+    if not json_identical(cls.default, want):
+        return [{"sub": "dsl", "kind": "subclass-default-is-not-the-declared-one", "got": repr(cls.default)[:100]}]
+    try:
+        doc = serialize_json(cls)
+    except Exception as exc:  # noqa: BLE001
+        return [{"sub": "json", "kind": "serialize-json-raised:" + type(exc).__name__}]
+    if "default" not in doc or not json_identical(doc["default"], want):
+        fails.append({"sub": "json", "kind": "subclass-default-altered-in-json", "declared": want,
+                      "got": doc.get("default", "<absent>")})
+    try:
+        text = serialize_python(cls)
+    except Exception as exc:  # noqa: BLE001
+        return fails + [{"sub": "python", "kind": "serialize-python-raised:" + type(exc).__name__}]
+    ns, problem = exec_module(text)
+    gen = ns.get("Child") if ns is not None else None
+    if problem or gen is None:
+        fails.append({"sub": "python", "kind": "subclass-module-does-not-execute:" + str((problem or {}).get("kind", "class-missing")),
+                      "text": text[-400:]})
+        return fails
+    have = getattr(gen, "default", NotPassed())
+    if isinstance(have, NotPassed) or not json_identical(have, want):
+        fails.append({"sub": "python", "kind": "subclass-default-altered-in-generated-module", "declared": want,
+                      "got": repr(have)[:100], "text": text[-400:]})
+    if want_desc is not None:
+        got_desc = getattr(gen, "description", None)
+        if isinstance(got_desc, NotPassed) or got_desc != want_desc:
+            fails.append({"sub": "python", "kind": "subclass-description-altered-in-generated-module",
+                          "declared": want_desc, "got": repr(got_desc)[:100]})
+    return fails
+
+
 def predicate(case, stats):
+    if case.get("where") == "dsl-subclass":
+        return subclass_predicate(case, stats)
     if case.get("where") == "shared-ref":
         return shared_predicate(case, stats)
     schema = case["schema"]
@@ -405,4 +470,5 @@ replay_predicate = predicate
 
 
 def run_shard(ctx, stats):
-    return runner.hyp_run(ctx, stats, st.one_of(cases(), cases(), cases(), shared_cases()), predicate, BUDGET[ctx.tier])
+    strat = st.one_of(cases(), cases(), cases(), cases(), shared_cases(), subclass_cases())
+    return runner.hyp_run(ctx, stats, strat, predicate, BUDGET[ctx.tier])
